@@ -28,8 +28,6 @@ MULTI_BYTE = [p for p in S.PRIMS if p not in S.SINGLE_BYTE]
 HDR_MSG = ['schemaId', 'templateId', 'version', 'blockLength']
 HDR_GROUP = ['numInGroup', 'blockLength']
 HDR_DATA = ['length', 'varData']
-KEYWORDS = ['class', 'namespace', 'xor', 'co_await', 'char8_t', 'new']
-BAD_NAMES = ['1abc', 'a-b', 'a b', 'a.b', 'café']
 
 _G = S.Gen(random.Random(0))
 
@@ -867,7 +865,75 @@ def all_named(s):
             yield 'data of %s' % level_kind(depth), addr + ['datas', i], path, d
 
 
-def m_names(s, rng):
+# ISO C++ [lex.key]: keywords (table 5, C++20/23) and alternative tokens (table 6).  Written out here, independently of
+# the validator's table and of the Lean lists, so that a keyword dropped from either of them shows up as a disagreement.
+ALL_KEYWORDS = (
+    'alignas alignof asm auto bool break case catch char char8_t char16_t char32_t class concept const consteval '
+    'constexpr constinit const_cast continue co_await co_return co_yield decltype default delete do double '
+    'dynamic_cast else enum explicit export extern false float for friend goto if inline int long mutable namespace '
+    'new noexcept nullptr operator private protected public register reinterpret_cast requires return short signed '
+    'sizeof static static_assert static_cast struct switch template this thread_local throw true try typedef typeid '
+    'typename union unsigned using virtual void volatile wchar_t while '
+    'and and_eq bitand bitor compl not not_eq or or_eq xor xor_eq').split()
+# asked for by name: alternative tokens, C++11/20 additions
+KEYWORDS_ALWAYS = ['and', 'not_eq', 'xor_eq', 'alignas', 'char8_t', 'co_await', 'concept', 'requires']
+# identifiers with special meaning ([lex.name] table 4) are NOT keywords: usable as names (the generated code compiles
+# with them in every position under -std=c++11/17/20/23)
+CONTEXTUAL = ['final', 'override', 'import', 'module']
+# characters that are neither alphanumeric nor `_` (the last one is a two-byte UTF-8 letter)
+BAD_CHARS = ['-', '.', '$', '@', ' ', '+', ':', '#', '~', '\u00e9']
+# `<name>.hpp` must fit NAME_MAX = 255: public types and messages become file names
+FILE_NAME_MAX = 251
+
+
+def name_cases(old, is_file, is_public_type):
+    """every probe of the naming rule for an entity currently called `old`:
+    (new name, rule, class or None, what).  The rule is per character:
+    non-empty, every character alphanumeric or `_`, the first one not a digit; C++ keywords and
+    alternative tokens (case-sensitive) are refused on top of that."""
+    out = []
+    mid = max(1, len(old) // 2)
+    left, right = (old[:mid], old[mid:]) if len(old) > 1 else (old, old)
+    for ch in BAD_CHARS:
+        shown = 'U+00E9' if ch == '\u00e9' else 'space' if ch == ' ' else ch
+        out.append((ch + old, 'name', 'invalidName', 'only the FIRST character is invalid: `%s`' % shown))
+        out.append((old + ch, 'name', 'invalidName', 'only the LAST character is invalid: `%s`' % shown))
+        out.append((left + ch + right, 'name', 'invalidName', 'only a MIDDLE character is invalid: `%s`' % shown))
+    for d in '7':
+        out.append((d + old, 'name', 'invalidName', 'leading digit %s' % d))
+        out.append((old + d, 'name', None, 'trailing digit %s' % d))
+        out.append((left + d + right, 'name', None, 'digit %s in the middle' % d))
+    for one, cls in (('_', None), ('a', None), ('-', 'invalidName'), ('9', 'invalidName'), ('\u00e9', 'invalidName')):
+        out.append((one, 'name', cls, 'single-character name'))
+    out.append(('', 'name', 'attrEmpty', 'empty name'))
+    for n in (2, 64, 65, 255, 256, 1000):
+        if is_file and n > FILE_NAME_MAX:
+            n = FILE_NAME_MAX if n == 255 else None
+        if n and n > len(old):
+            out.append((old + 'x' * (n - len(old)), 'name', None, '%d characters' % n))
+    for new, what in (('_' + old, 'leading underscore'), (old + '_', 'trailing underscore'), ('__' + old, 'two leading underscores'),
+                      (old + '__', 'two trailing underscores'), (left + '__' + right, 'double underscore inside'),
+                      ('__', 'only underscores'), ('__reserved', 'reserved form `__x`'), ('_Upper', 'reserved form `_X`'),
+                      ('_9', 'underscore then digit')):
+        out.append((new, 'name', None, what + ' (sbeppc only warns about reserved C++ identifiers)'))
+    for kw in KEYWORDS_ALWAYS + [k for k in ALL_KEYWORDS if k not in KEYWORDS_ALWAYS]:
+        out.append((kw, 'keyword', 'keywordName', 'C++ keyword / alternative token'))
+    for kw in CONTEXTUAL:
+        out.append((kw, 'keyword', None, 'identifier with special meaning, not a keyword'))
+    for kw in ('Class', 'AND', 'Not_eq', 'class_', '_class', 'nott'):
+        out.append((kw, 'keyword', None, 'differs from a keyword (keywords are case-sensitive, whole-name)'))
+    seen, res = set(), []
+    for c in out:
+        if c[0] != old and c[0] not in seen:
+            seen.add(c[0])
+            res.append(c)
+    return res
+
+
+def m_names(s, rng, rotate=0):
+    """`rotate` = 0: every probe of `name_cases` at every named position (of the keyword table: the ones asked for by name
+    and a slice of 12 that rotates with the position).  `rotate` = n > 0: every position gets n probes, a window that
+    moves with the position, so that over the positions of a run every probe meets every kind of position"""
     vrefs = set()
     for _, _, e, _ in walk_elems(s):
         if e.get('valueRef'):
@@ -876,27 +942,49 @@ def m_names(s, rng):
         for f in l.get('fields', []):
             if f.get('valueRef'):
                 vrefs.add(tuple(f['valueRef'].split('.', 1)))
-    for kind, addr, prefix, ent in all_named(s):
+    off = rng.randrange(1 << 20)
+    for j, (kind, addr, prefix, ent) in enumerate(all_named(s)):
         # validValues that some valueRef points to keep their names (renaming = a second broken rule)
         if kind.startswith('validValue') and any(v[1] == ent['name'] for v in vrefs):
             continue
-        for new, cls, rule in ((rng.choice(BAD_NAMES), 'invalidName', 'name'), (rng.choice(KEYWORDS), 'keywordName', 'keyword')):
-            c = copy.deepcopy(s)
-            old = ent['name']
-            siblings = _sibling_names(c, addr)
-            if new in siblings or new.lower() in {x.lower() for x in siblings if addr[0] == 'types' and len(addr) == 2}:
+        old = ent['name']
+        public = addr[0] == 'types' and len(addr) == 2
+        is_file = public or (addr[0] == 'messages' and len(addr) == 2)
+        cases = name_cases(old, is_file, public)
+        kws = [c for c in cases if c[2] == 'keywordName' and c[0] not in KEYWORDS_ALWAYS]
+        k = (off + j * 12) % len(kws)
+        drop = {c[0] for c in kws} - {c[0] for c in (kws + kws)[k:k + 12]}
+        cases = [c for c in cases if c[0] not in drop]
+        if rotate:
+            k = (off + j * rotate) % len(cases)
+            cases = (cases + cases)[k:k + rotate]
+        siblings = _sibling_names(s, addr)
+        low = {x.lower() for x in siblings}
+        for new, rule, cls, what in cases:
+            if new in siblings or (public and new.lower() in low):
                 continue
-            if addr[0] == 'types' and len(addr) == 2:
+            if public and '.' in new and any(v[0].lower() == old.lower() for v in vrefs):
+                continue        # `valueRef="a.b.X"` would no longer name this enum: a second broken rule
+            c = copy.deepcopy(s)
+            if public:
                 rename_type(c, old, new)
             else:
                 get(c, addr)['name'] = new
-            yield Mut(c, rule, cls, prefix + [new], kind, 'reject', '%s -> %s' % (old, new))
+            yield Mut(c, rule, cls, prefix + [new], kind, 'reject' if cls else 'accept', '%s: %s -> %s' % (what, old, new[:40]))
+    pkg0 = s.get('package', 'p')
+    for new, rule, cls, what in name_cases(pkg0, False, False):
+        if len(new) > 200 or new == '' or (rotate and rng.random() > 0.05 * rotate):
+            continue
+        c = copy.deepcopy(s)
+        c['package'] = new
+        yield Mut(c, rule, 'badSchemaName' if cls else None, ['schema'], 'schema package', 'reject' if cls else 'accept',
+                  '%s: %s' % (what, new[:40]))
     for pkg, why in (('class', 'keyword'), ('std', 'reserved namespace'), ('posix', 'reserved namespace'), ('1x', 'not symbolic'),
                      ('a.b', 'not symbolic'), ('', 'empty')):
         c = copy.deepcopy(s)
         c['package'] = pkg
         yield Mut(c, 'keyword' if why != 'not symbolic' else 'name', 'badSchemaName', ['schema'], 'schema package', 'reject', why)
-    for pkg in ('std_', 'Class', '_x', 'stdx'):
+    for pkg in ('std_', 'Class', '_x', 'stdx', 'Std', 'POSIX', 'posix_', 'stdd'):
         c = copy.deepcopy(s)
         c['package'] = pkg
         yield Mut(c, 'name', None, ['schema'], 'schema package', 'accept', pkg)
@@ -1751,17 +1839,18 @@ def m_parser(s):
             yield Mut(c, 'attribute', 'attrNotNumeric', path + [f['name']], 'field id', 'reject', '65536')
 
 
-def mutants(s, rng):
+def mutants(s, rng, names_rotate=0):
     """every single-rule edit of `s` at every applicable position; edits whose
     only purpose is another rule but which change a size and thereby push a
-    later explicit offset / blockLength below its minimum are dropped"""
-    for m in _mutants(s, rng):
+    later explicit offset / blockLength below its minimum are dropped.
+    `names_rotate`: see `m_names`"""
+    for m in _mutants(s, rng, names_rotate):
         if m.rule not in ('offset', 'blockLength') and m.cls not in ('cyclicReference',) and not layout_ok(m.schema):
             continue
         yield m
 
 
-def _mutants(s, rng):
+def _mutants(s, rng, names_rotate=0):
     yield from m_offsets(s)
     yield from m_block_length(s)
     yield from m_values(s, rng)
@@ -1772,7 +1861,7 @@ def _mutants(s, rng):
     yield from m_arrays(s)
     yield from m_headers(s)
     yield from m_data_header_layout(s)
-    yield from m_names(s, rng)
+    yield from m_names(s, rng, names_rotate)
     yield from m_duplicates(s, rng)
     yield from m_constants(s, rng)
     yield from m_shared_headers(s, rng)
